@@ -7,6 +7,7 @@ P: refusal clauses (taken from the property text) on the real Logix.reply_elemen
    tag's own type); Attribute.__setitem__ never truncates/extends.
 B: boundary requests inside request histories on the real Logix.request (bounded).
 """
+from .util import distinct_keys
 import ast
 import random
 
@@ -240,7 +241,7 @@ def bounded(tier, seed):
                     violations.append(dict(key='set_attribute_single %s[%d] with %d bytes' % (ttype, n, nbytes),
                                            observed='status %r tag %r' % (d.status, after),
                                            required='exact byte count stores the values; any other count is refused and leaves the tag (and its length) unchanged'))
-    return dict(evaluations=ev, distinct_nontrivial=len(distinct),
+    return dict(evaluations=ev, distinct_nontrivial=len(distinct), distinct_keys=distinct_keys(distinct),
                 rule='seeded request histories per tag type on two array tags: index in {0,1,len-1,len,len+1,random}, count in '
                      '{0,1,2,rest,rest+1,len,len+1}, every request type incl. widest values into narrower tags; after each request all '
                      'tag contents are compared with the array model and re-read after every acknowledged write; '
